@@ -175,3 +175,26 @@ mut("c08-columns-swapped", "C08", [(D + "ModelResults.py", '            df[f"low
 ben("c08-clip-instead", ["C08"], [(BS, "potential_losses = ((pred_states - (~lower_states).astype(int)) > 0).astype(int)", "potential_losses = (pred_states.astype(bool) & lower_states).astype(int)")])
 ben("c08-local-rename", ["C08"], [(BS, "        nat_sum_data_dict_sorted = sorted(nat_sum_data_dict.items())\n        nat_sum_data_dict_sorted_vals = np.asarray([x[1] for x in nat_sum_data_dict_sorted]).reshape(-1, 1)",
                                     "        weights_by_contest = sorted(nat_sum_data_dict.items())\n        nat_sum_data_dict_sorted_vals = np.asarray([x[1] for x in weights_by_contest]).reshape(-1, 1)")])
+
+# ------------------------------------------------------------------------------------------- C07
+mut("c07-no-intersection-check", "C07", [(BS, "        if len(lhs_rhs_intersection) > 0:\n            raise BootstrapElectionModelException(\n                f\"You can only call a contest for one party", "        if len(lhs_rhs_intersection) > 1:\n            raise BootstrapElectionModelException(\n                f\"You can only call a contest for one party")], "C07.R1")
+mut("c07-rhs-unknown-not-rejected", "C07", [(BS, "        rhs_difference_with_contests = set(rhs_called_contests) - set(contests)", "        rhs_difference_with_contests = set(rhs_called_contests) - set(rhs_called_contests)")], "C07.R1")
+mut("c07-lhs-checked-against-rhs", "C07", [(BS, "        lhs_difference_with_contests = set(lhs_called_contests) - set(contests)", "        lhs_difference_with_contests = set(lhs_called_contests) - set(rhs_called_contests)")], "C07.R1")
+mut("c07-vector-elif-swapped-value", "C07", [(BS, "            elif contest in rhs_called_contests:\n                called_contests[i] = rhs_value", "            elif contest in rhs_called_contests:\n                called_contests[i] = lhs_value")], "C07.R1")
+mut("c07-pred-max-zero", "C07", [(BS, "        to_call_mod[np.isclose(called_contests, 1)] = np.maximum(\n            self.lhs_called_threshold, to_call[np.isclose(called_contests, 1)]\n        )",
+                                   "        to_call_mod[np.isclose(called_contests, 1)] = np.maximum(\n            0, to_call[np.isclose(called_contests, 1)]\n        )")], "C07.R2")
+mut("c07-pred-rhs-uses-max", "C07", [(BS, "        to_call_mod[np.isclose(called_contests, 0)] = np.minimum(", "        to_call_mod[np.isclose(called_contests, 0)] = np.maximum(")], "C07.R2")
+mut("c07-pred-rhs-mask-fill", "C07", [(BS, "        to_call_mod[np.isclose(called_contests, 0)] = np.minimum(\n            self.rhs_called_threshold, to_call[np.isclose(called_contests, 0)]", "        to_call_mod[np.isclose(called_contests, -1)] = np.minimum(\n            self.rhs_called_threshold, to_call[np.isclose(called_contests, -1)]")], "C07.R2")
+mut("c07-threshold-changed", "C07", [(BS, "        self.lhs_called_threshold = 0.005", "        self.lhs_called_threshold = 0.0005")], "C07")
+mut("c07-lower-le", "C07", [(BS, "                (interval_lower < 0)\n                & np.isclose(self.called_contests, 1),", "                (interval_lower < -0.005)\n                & np.isclose(self.called_contests, 1),")], "C07.R3")
+mut("c07-upper-wrong-code", "C07", [(BS, "                & np.isclose(self.called_contests, 0),  # current bound is higher than 0 but called for gop", "                & np.isclose(self.called_contests, -1),  # current bound is higher than 0 but called for gop")], "C07.R3")
+mut("c07-stop-only-lower", "C07", [(BS, "            interval_upper = np.where((interval_upper < 0) & stop_model_call, self.lhs_called_threshold, interval_upper)\n", "")], "C07.R3")
+mut("c07-stop-before-call", "C07", [(BS, "            interval_lower = np.where((interval_lower > 0) & stop_model_call, self.rhs_called_threshold, interval_lower)", "            interval_lower = np.where((interval_lower > 0.005) & stop_model_call, self.rhs_called_threshold, interval_lower)")], "C07.R3")
+mut("c07-stop-replaces-with-positive", "C07", [(BS, "np.where((interval_lower > 0) & stop_model_call, self.rhs_called_threshold, interval_lower)", "np.where((interval_lower > 0) & stop_model_call, self.lhs_called_threshold, interval_lower)")], "C07.R3")
+mut("c07-pred-not-reported", "C07", [(BS, "            raw_margin_df[\"pred_margin\"] = self.aggregate_pred_margin\n", "")], "C07")
+mut("c07-client-drops-rhs", "C07", [(CL, "                    lhs_called_contests=lhs_called_contests,\n                    rhs_called_contests=rhs_called_contests,\n                )\n                alpha_to_agg_prediction_intervals = {}", "                    lhs_called_contests=lhs_called_contests,\n                )\n                alpha_to_agg_prediction_intervals = {}")], "C07.R4")
+mut("c07-client-stop-not-forwarded", "C07", [(CL, "                        stop_model_call=stop_model_call,\n", "")], "C07.R4")
+mut("c07-client-swaps-sides", "C07", [(CL, "                        lhs_called_contests=lhs_called_contests,\n                        rhs_called_contests=rhs_called_contests,\n                        stop_model_call", "                        lhs_called_contests=rhs_called_contests,\n                        rhs_called_contests=lhs_called_contests,\n                        stop_model_call")], "C07.R4")
+mut("c07-model-reads-other-key", "C07", [(BS, "            stop_model_call = kwargs.get(\"stop_model_call\", [])", "            stop_model_call = kwargs.get(\"stop_model_calls\", [])")], "C07")
+ben("c07-where-to-mask", ["C07"], [(BS, "            interval_upper = np.where((interval_upper < 0) & stop_model_call, self.lhs_called_threshold, interval_upper)", "            interval_upper = interval_upper.copy()\n            interval_upper[(interval_upper < 0) & stop_model_call] = self.lhs_called_threshold")])
+ben("c07-intersection-method", ["C07"], [(BS, "lhs_rhs_intersection = set(lhs_called_contests) & set(rhs_called_contests)", "lhs_rhs_intersection = set(rhs_called_contests) & set(lhs_called_contests)")])
